@@ -119,3 +119,104 @@ Example C04_region_run :
   | Stray => False
   end.
 Proof. vm_compute. repeat split; reflexivity. Qed.
+
+(** * [C04_histories_full] / [C06_zero_frame_inv_boot]: a safe adaptive history from boot, and its run *)
+From FF Require Import Vmm.Region Vmm.RegionProofs Vmm.PtFault Vmm.PtCow Vmm.PtZero Vmm.PtGlobal Vmm.PtHist2.
+
+Definition xlo : N := 0x1000.
+Definition xcnt : N := 0x100.
+Definition xoracle : list N := map (fun k => xlo + k) [1; 2; 3; 4; 5; 6; 7; 8; 9; 10; 11; 12].
+Definition xfree : list N := [0x1020].
+Definition xboot : ast := a_boot xlo vmm_tempMappingAddr xfree xoracle.
+
+(* reserve the zero frame; map it read-only; ask for it writable (refused); make a second address space,
+   map the zero frame read-only there too, and switch to it *)
+Definition xh : hist :=
+  HOp QArm (fun r1 => if fst r1 =? 0 then
+    HOp (QMap 0x5000 (snd r1) 1) (fun _ =>
+    HOp (QMap 0x5001 (snd r1) P_RW) (fun _ =>
+    HOp (QPdtInit 0 0x1020) (fun r4 => if fst r4 =? 0 then
+      HOp (QPdtMap 0 0x5002 (snd r1) 1) (fun _ =>
+      HOp (QActivate 0) (fun _ => HOp (QTranslate 0x5002000) (fun _ => HDone)))
+    else HDone)))
+  else HDone).
+
+Lemma xpool_lt F : In F xoracle -> F < 2 ^ 40 /\ F <> 0x1020 /\ F <> 0.
+Proof. intros H. unfold xoracle, xlo in H. cbn in H. repeat (destruct H as [<-|H]; [repeat split; try discriminate; reflexivity|]). contradiction. Qed.
+
+Example C04_full_nonvacuous_safe : hsafe (fun o a => qdom o a /\ qavoid o a) xh xboot.
+Proof.
+  cbn [hsafe xh]. split; [split; [reflexivity | exact I]|].
+  intros r1 a1 HA1. rewrite astep_arm in HA1.
+  destruct HA1 as [(-> & ->) | (F & HF0 & HFp & _ & [(-> & ->) | (-> & ->)])]; cbn [fst snd N.eqb]; try exact I.
+  change (apool xboot) with xoracle in HFp. destruct (xpool_lt F HFp) as (HF40 & HFne & _).
+  assert (Hg1: forall a, aguard a F 1 = false) by (intros; unfold aguard; change (wants_rw 1) with false; apply andb_false_r).
+  assert (Hpg: forall p, In p [0x5000; 0x5001; 0x5002] -> page_ok p F 1 /\ page_ok p F P_RW).
+  { intros p Hp. cbn in Hp. repeat (destruct Hp as [<-|Hp]; [repeat split; try exact HF40; try discriminate; reflexivity|]). contradiction. }
+  (* Map 0x5000 F read-only *)
+  cbn [hsafe]. split.
+  { split; [exact (proj1 (Hpg 0x5000 ltac:(cbn; tauto)))|]. change (~ In F (remove N.eq_dec F xoracle)). apply remove_In. }
+  intros r2 a2 HA2. rewrite astep_map in HA2. apply amap_act_cases in HA2.
+  destruct HA2 as [(Hg & _) | (_ & HA2)]; [rewrite Hg1 in Hg; discriminate|].
+  assert (K2: aprot a2 = true /\ azf a2 = F /\ apool a2 = remove N.eq_dec F xoracle /\ afree a2 = [F; 0x1020] /\ aact a2 = xlo /\ aslot a2 0 = None /\ aroots a2 = [xlo]).
+  { destruct HA2 as [(_ & ->) | (_ & ->)]; repeat split. }
+  clear HA2. destruct K2 as (P2 & Z2 & O2 & F2 & A2 & S2 & R2).
+  (* Map 0x5001 F writable: refused *)
+  split.
+  { split; [exact (proj2 (Hpg 0x5001 ltac:(cbn; tauto)))|]. cbn [qavoid]. rewrite O2. apply remove_In. }
+  intros r3 a3 HA3. rewrite astep_map in HA3. apply amap_act_cases in HA3.
+  assert (Hg3: aguard a2 F P_RW = true) by (unfold aguard; rewrite P2, Z2, N.eqb_refl; reflexivity).
+  destruct HA3 as [(_ & -> & ->) | (Hg & _)]; [|rewrite Hg3 in Hg; discriminate].
+  (* Init of the free frame 0x1020 *)
+  split.
+  { split; [|exact I]. cbn [qdom]. split; [reflexivity|]. split; [rewrite F2; right; left; reflexivity|].
+    unfold aguard. rewrite Z2. destruct (N.eqb_spec 0x1020 F) as [E|_]; [exfalso; exact (HFne (eq_sym E))|]. rewrite andb_false_r. reflexivity. }
+  intros r4 a4 HA4. rewrite astep_init in HA4. destruct HA4 as [(-> & ->) | (-> & ->)]; cbn [fst N.eqb]; [|exact I].
+  (* Map 0x5002 F read-only in the new, inactive address space *)
+  set (a4 := a_init a2 0 0x1020).
+  assert (S4: aslot a4 0 = Some 0x1020) by reflexivity.
+  cbn [hsafe]. split.
+  { split; [cbn [qdom]; rewrite S4; split; [reflexivity|]; split; [discriminate | exact (proj1 (Hpg 0x5002 ltac:(cbn; tauto)))]|].
+    change (~ In F (apool a2)). rewrite O2. apply remove_In. }
+  intros r5 a5 HA5. rewrite (astep_pdt_map 0 0x1020 _ _ _ _ _ _ S4) in HA5.
+  apply amap_inact_cases in HA5; [|change (aact a4) with (aact a2); rewrite A2; discriminate]. rewrite Hg1 in HA5.
+  assert (S5: aslot a5 0 = Some 0x1020).
+  { destruct HA5 as [(_ & _ & ->) | [(_ & _ & ->) | (_ & E & _)]]; [reflexivity | reflexivity | discriminate]. }
+  clear HA5.
+  (* Activate it, translate *)
+  split.
+  { split; [|exact I]. cbn [qdom]. rewrite S5. split; [reflexivity | discriminate]. }
+  intros r6 a6 HA6. rewrite (astep_activate 0 0x1020 _ _ _ S5) in HA6. destruct HA6 as (-> & ->).
+  split; [|intros; exact I].
+  split; [|exact I]. cbn [qdom]. vm_compute. discriminate.
+Qed.
+
+(* so the model runs this history from the boot state without a stray access, the abstract machine follows it, and at
+   the end either the guard is not armed or the zero frame is all zeroes and mapped writable nowhere *)
+Example C04_full_nonvacuous_run :
+  exists rs s' a' g',
+    run_hist xh (init_state xlo xcnt 0 xoracle) = Ok (rs, s') /\
+    Steps xh (init_state xlo xcnt 0 xoracle) xboot rs s' a' /\ Rel s' a' g' /\
+    (prot s' = true ->
+       (forall i, ent s' (zf s') i = 0) /\
+       (forall R q fl, In R (aroots a') -> hw_idx q 0 <> 511 -> translation s' R q = Some (zf s', fl) -> N.testbit fl 1 = false)).
+Proof.
+  apply (boot_histories_zero xlo xcnt 0 xoracle xfree xoracle).
+  - reflexivity.
+  - vm_compute. discriminate.
+  - unfold xoracle. vm_compute. repeat constructor; cbn; intuition discriminate.
+  - intros f Hf _. unfold xoracle, xlo, xcnt in *. cbn in Hf. repeat (destruct Hf as [<-|Hf]; [split; reflexivity|]). contradiction.
+  - intros F [<-|[]]. split; [reflexivity|]. split; [reflexivity|]. unfold xoracle, xlo. cbn. intuition discriminate.
+  - split; [reflexivity | apply N.le_refl].
+  - apply incl_refl.
+  - exact C04_full_nonvacuous_safe.
+Qed.
+
+(* the answers the model actually gives: everything succeeds except the writable mapping of the zero frame *)
+Example C04_full_nonvacuous_answers :
+  match run_hist xh (init_state xlo xcnt 0 xoracle) with
+  | Ok (rs, s') => map (fun x => fst (snd x)) rs = [0; 0; E_ZERO_RW; 0; 0; 0; 0] /\ prot s' = true /\ zf s' = 0x1001
+  | Stray => False
+  end.
+Proof. vm_compute. repeat split. Qed.
+
